@@ -132,9 +132,13 @@ def gen_update_entries(rng, ix, a):
     return out
 
 
-def gen_mapping(rng, ix, a):
+def gen_mapping(rng, ix, a, prefer_merge=False):
     present = sorted(set(a.reshape(-1).tolist()) | {int(ix.common)})
     kind = rng.choice(["default", "injective", "many_to_one", "onto_common", "partial", "move_common"])
+    if prefer_merge and rng.random() < 0.7:
+        # several listed values merged into one or two others: the merged row-id lists interleave
+        tg = rng.sample(range(0, 9), 2)
+        return {v: rng.choice(tg) for v in present}, "many_to_one"
     if kind == "default":
         return None, kind
     if kind == "injective":
